@@ -620,23 +620,32 @@ static void scenario_pinadd (void)
 
 /* C18: a connection suspended in the handler and resumed from another thread while nothing else
  * happens on the daemon must get its reply promptly (the resume must wake and re-run the loop) */
+static int sc_quiet_retry;
+
 static void scenario_quietresume (void)
 {
-  int fd, code;
-  uint64_t t0;
+  int attempt;
   pin_mod = 1;
-  fd = add_pair (0);
-  if (fd < 0) return;
-  usleep (100000);
-  ST (quiet_delay_ms, 150);
-  resp_tmo = 2000;
-  t0 = now_ms ();
-  code = one_get (fd, 'u');
-  sc_quiet_ms = (long) (now_ms () - t0);
-  sc_quiet = (200 == code) ? 0 : 1;
-  ST (quiet_delay_ms, 0);
-  resp_tmo = 6000;
-  close (fd);
+  /* a second attempt tells a lost wake-up (deterministic: fails again) from a starved machine (reported as a retry) */
+  for (attempt = 0; attempt < 2; attempt++)
+  {
+    int fd, code;
+    uint64_t t0;
+    fd = add_pair (0);
+    if (fd < 0) return;
+    usleep (100000);
+    ST (quiet_delay_ms, 150);
+    resp_tmo = 2000;
+    t0 = now_ms ();
+    code = one_get (fd, 'u');
+    sc_quiet_ms = (long) (now_ms () - t0);
+    sc_quiet = (200 == code) ? 0 : 1;
+    ST (quiet_delay_ms, 0);
+    resp_tmo = 6000;
+    close (fd);
+    if (0 == sc_quiet) break;
+    if (0 == attempt) sc_quiet_retry = 1;
+  }
 }
 
 /* ------------------------------------------------------------ library panic */
@@ -950,12 +959,12 @@ int main (int argc, char **argv)
     printf ("result mode=%s pool=%s clients=%d seed=%u stop_ms=%ld req_ok=%ld req_fail=%ld conn_add=%ld conn_tcp=%ld add_fail=%ld "
             "susp=%ld resume=%ld auth_chk=%ld auth_req=%ld cb_blocks=%ld post=%ld opt=%ld abort=%ld handler=%ld completed=%ld "
             "conn_started=%ld conn_closed=%ld not_closed=%ld double_close=%ld double_complete=%ld body_mismatch=%ld "
-            "pinadd=%d pinadd_ms=%ld quietresume=%d quietresume_ms=%ld fd=%ld auth_ok_sent=%ld auth_ok=%ld auth_stale=%ld "
+            "pinadd=%d pinadd_ms=%ld quietresume=%d quietresume_ms=%ld quietresume_retry=%d fd=%ld auth_ok_sent=%ld auth_ok=%ld auth_stale=%ld "
             "auth_respwrong=%ld auth_noncewrong=%ld nnc_size=%d ip_addrs=%ld ip_bind_fail=%ld panic=0 bad=%d\n",
             mode, pool, nclients, seed, (long) (t1 - t0), n_req_ok, n_req_fail, n_conn_add, n_conn_tcp, n_add_fail,
             n_susp, n_resume, n_auth_chk, n_auth_req, n_cb_blocks, n_post, n_opt, n_abort, n_handler, n_completed,
             n_started_cb, n_closed_cb, not_closed, n_double_close, n_double_complete, n_body_mismatch,
-            sc_pinadd, sc_pin_ms, sc_quiet, sc_quiet_ms, n_fd, n_auth_ok_sent, auth_res[(MHD_DAUTH_OK + 40) % 32],
+            sc_pinadd, sc_pin_ms, sc_quiet, sc_quiet_ms, (sc_quiet_retry && 0 == sc_quiet) ? 1 : 0, n_fd, n_auth_ok_sent, auth_res[(MHD_DAUTH_OK + 40) % 32],
             auth_res[(MHD_DAUTH_NONCE_STALE + 40) % 32], auth_res[(MHD_DAUTH_RESPONSE_WRONG + 40) % 32],
             auth_res[(MHD_DAUTH_NONCE_WRONG + 40) % 32], nnc_size, ips, n_ip_bind_fail, bad);
     fflush (stdout);
